@@ -313,7 +313,12 @@ impl VideoState {
     while offset < 160 && objects_found.len() < 10 {
       let object_y = oam[offset] as isize;
       let object_x = oam[offset + 1];
-      let tile_index = oam[offset + 2] as usize;
+      // 8x16 objects ignore the lowest bit of the tile index
+      let tile_index = if self.object_double_height {
+        oam[offset + 2] as usize & 0xfe
+      } else {
+        oam[offset + 2] as usize
+      };
       let attributes = oam[offset + 3];
       offset += 4;
       let mut object_line = current_line + 16 - object_y;
